@@ -134,4 +134,140 @@ Proof.
   rewrite Hk, Hv, Hk1, Hv1, (elems_abs_perm _ HI1), Habs1, <- (elems_abs_perm _ HI). auto.
 Qed.
 
+(* ---------------------------------------------------------------- key objects, call by call
+   (the ingredients of the history-level law of WorldLedger.v) *)
+Definition kidsE (r : rt) : list N := map ekid (elems r).
+
+Lemma kidsE_abs r : Inv R ES r -> kidsE r ≡ₚ map ekid (map_to_list (rt_abs r)).*2.
+Proof. intros HI. unfold kidsE. rewrite (elems_abs_perm r HI). reflexivity. Qed.
+
+Lemma kids_abs_same r r' : Inv R ES r -> Inv R ES r' -> rt_abs r' = rt_abs r -> kidsE r' ≡ₚ kidsE r.
+Proof. intros H H' E. rewrite (kidsE_abs r H), (kidsE_abs r' H'), E. reflexivity. Qed.
+
+Lemma kids_overwrite (m : gmap N elem) k e e' :
+  m !! k = Some e -> ekid e' = ekid e ->
+  map ekid (map_to_list (<[k := e']> m)).*2 ≡ₚ map ekid (map_to_list m).*2.
+Proof.
+  intros H He. destruct (abs_overwrite_perm m k e e' H) as (rest & H1 & H2). rewrite H1, H2. cbn [map]. rewrite He. reflexivity.
+Qed.
+Lemma kids_fmap (f : elem -> elem) (m : gmap N elem) :
+  (forall e, ekid (f e) = ekid e) -> map ekid (map_to_list (f <$> m)).*2 ≡ₚ map ekid (map_to_list m).*2.
+Proof.
+  intros Hf. rewrite map_to_list_fmap. rewrite <- !list_fmap_compose.
+  apply Permutation_refl'. apply list_fmap_ext. intros i [k e] _. cbn. apply Hf.
+Qed.
+
+(* lookups and in-place updates *)
+Lemma map_get_star g k wv s o s' :
+  Inv R ES (s_rt s) -> map_get g k wv s = Ok o s' -> dks s' ++ kidsE (s_rt s') ≡ₚ dks s ++ kidsE (s_rt s).
+Proof.
+  intros HI E. pose proof (nd_map_get g k wv s (Inv_lite _ _ _ HI)) as Hn. unfold wpp in Hn. rewrite E in Hn.
+  destruct Hn as [(Hk & _ & _) _]. pose proof (map_get_spec c g k wv s HI) as Hs. unfold wp in Hs. rewrite E in Hs.
+  destruct Hs as (HI' & _ & Habs & _). rewrite Hk. apply Permutation_app_head.
+  rewrite (kidsE_abs _ HI'), (kidsE_abs _ HI), Habs.
+  destruct (get_writes g); [|reflexivity]. destruct (rt_abs (s_rt s) !! k) as [e|] eqn:Ek; [|reflexivity].
+  apply (kids_overwrite _ k e); [exact Ek|reflexivity].
+Qed.
+
+(* reserve / try_reserve, shrink_to, iteration (with or without value updates) *)
+Lemma rt_reserve_star fallible n s b s' :
+  Inv R ES (s_rt s) -> n <= usize_max -> rt_reserve c fallible n s = Ok b s' ->
+  dks s' ++ kidsE (s_rt s') ≡ₚ dks s ++ kidsE (s_rt s).
+Proof.
+  intros HI Hn E. pose proof (nd_rt_reserve c fallible n s (Inv_lite _ _ _ HI)) as Hd. unfold wpp in Hd. rewrite E in Hd.
+  destruct Hd as [(Hk & _ & _) _].
+  pose proof (rt_reserve_spec c fallible n (fun _ s1 => Inv R ES (s_rt s1) /\ rt_abs (s_rt s1) = rt_abs (s_rt s)) (fun _ _ => True) s HI Hn) as Hs.
+  unfold wp in Hs. rewrite E in Hs. destruct Hs as [HI' Habs]; [intros s0 (H1 & H2 & _); auto|auto|auto|].
+  rewrite Hk. apply Permutation_app_head. apply kids_abs_same; assumption.
+Qed.
+Lemma rt_shrink_star n s u s' :
+  Inv R ES (s_rt s) -> rt_shrink_to c n s = Ok u s' -> dks s' ++ kidsE (s_rt s') ≡ₚ dks s ++ kidsE (s_rt s).
+Proof.
+  intros HI E. pose proof (nd_rt_shrink_to c n s (Inv_lite _ _ _ HI)) as Hd. unfold wpp in Hd. rewrite E in Hd.
+  destruct Hd as [(Hk & _ & _) _].
+  pose proof (rt_shrink_to_spec c n (fun _ s1 => Inv R ES (s_rt s1) /\ rt_abs (s_rt s1) = rt_abs (s_rt s)) (fun _ _ => True) s HI) as Hs.
+  unfold wp in Hs. rewrite E in Hs. destruct Hs as [HI' Habs]; [intros s0 (H1 & H2 & _); auto|auto|].
+  rewrite Hk. apply Permutation_app_head. apply kids_abs_same; assumption.
+Qed.
+Lemma map_iter_star delta s l s' :
+  Inv R ES (s_rt s) -> map_iter delta s = Ok l s' -> dks s' ++ kidsE (s_rt s') ≡ₚ dks s ++ kidsE (s_rt s).
+Proof.
+  intros HI E. pose proof (nd_map_iter delta s (Inv_lite _ _ _ HI)) as Hd. unfold wpp in Hd. rewrite E in Hd.
+  destruct Hd as [(Hk & _ & _) _].
+  pose proof (map_iter_spec c delta (fun _ s1 => Inv R ES (s_rt s1) /\
+      rt_abs (s_rt s1) = (if delta =? 0 then rt_abs (s_rt s) else bumpv delta <$> rt_abs (s_rt s))) (fun _ _ => True) s HI) as Hs.
+  unfold wp in Hs. rewrite E in Hs. destruct Hs as [HI' Habs]; [intros l0 s0 _ H1 H2; auto|].
+  rewrite Hk. apply Permutation_app_head. rewrite (kidsE_abs _ HI'), (kidsE_abs _ HI), Habs.
+  destruct (delta =? 0); [reflexivity|]. apply kids_fmap. reflexivity.
+Qed.
+
+(* remove_entry hands the element back *)
+Lemma map_remove_entry_star k s o s' :
+  Inv R ES (s_rt s) -> map_remove_entry c k s = Ok o s' ->
+  Inv R ES (s_rt s') /\
+  dks s' ++ kidsE (s_rt s') ++ match o with Some e => [ekid e] | None => [] end ≡ₚ dks s ++ kidsE (s_rt s).
+Proof.
+  intros HI E. pose proof (nd_map_remove_entry c k s (Inv_lite _ _ _ HI)) as Hd. unfold wpp in Hd. rewrite E in Hd.
+  destruct Hd as [(Hk & _ & _) _].
+  pose proof (map_remove_entry_spec c k s HI) as Hs. unfold wp in Hs. rewrite E in Hs. destruct Hs as (HI' & -> & Habs).
+  split; [exact HI'|]. rewrite Hk. apply Permutation_app_head. rewrite (kidsE_abs _ HI'), (kidsE_abs _ HI), Habs.
+  destruct (rt_abs (s_rt s) !! k) as [e|] eqn:Ek.
+  - rewrite <- (map_to_list_delete _ k e Ek). cbn [fmap list_fmap map]. symmetry. apply Permutation_cons_append.
+  - rewrite delete_notin by exact Ek. rewrite app_nil_r. reflexivity.
+Qed.
+
+(* clear / drop(map): everything stored goes to the ledger *)
+Lemma rt_clear_star s u s' :
+  Inv R ES (s_rt s) -> rt_clear s = Ok u s' -> dks s' ++ kidsE (s_rt s') ≡ₚ dks s ++ kidsE (s_rt s).
+Proof.
+  intros HI E. pose proof (rt_clear_ledger s (Inv_lite _ _ _ HI)) as H. unfold wpp in H. rewrite E in H.
+  destruct H as (_ & Hel & Hk & _). unfold kidsE. rewrite Hel, Hk, app_nil_r. apply Permutation_app_comm.
+Qed.
+Lemma map_drop_star s u s' :
+  Inv R ES (s_rt s) -> map_drop s = Ok u s' ->
+  kidsE (s_rt s') = [] /\ dks s' ++ kidsE (s_rt s') ≡ₚ dks s ++ kidsE (s_rt s).
+Proof.
+  intros HI E. pose proof (map_drop_ledger s (Inv_lite _ _ _ HI)) as H. unfold wpp in H. rewrite E in H.
+  destruct H as (_ & Hel & Hk & _). unfold kidsE. rewrite Hel, Hk, app_nil_r. split; [reflexivity|]. apply Permutation_app_comm.
+Qed.
+
+(* drain / into_iter: the yielded elements are handed out, the others dropped *)
+Definition kids3 (l : list (N * N * N)) : list N := map (fun x => snd (fst x)) l.
+
+Lemma drain_order_all s l s1 : Inv R ES (s_rt s) -> drain_order s = Ok l s1 -> l ≡ₚ elems (s_rt s).
+Proof.
+  intros HI E. pose proof (drain_order_spec c (fun l _ => drain_of (s_rt s) l) (fun _ _ => True) s HI (fun l H => H)) as H.
+  unfold wp in H. rewrite E in H. destruct H as (lm & Hv & ->).
+  apply valid_order_spec in Hv as (Hnd & Hem & _). unfold elems.
+  rewrite Permutation_app_comm. apply Permutation_app_tail. rewrite <- Hem. symmetry. apply (collect_perm lm Hnd).
+Qed.
+
+Lemma kids3_elem3 (l : list elem) : kids3 (map elem3 l) = map ekid l.
+Proof. unfold kids3. rewrite map_map. reflexivity. Qed.
+
+Lemma drain_star_aux (l : list elem) j (d0 : list N) :
+  (rev (map ekid (skipn j l)) ++ d0) ++ [] ++ map ekid (firstn j l) ≡ₚ d0 ++ map ekid l.
+Proof.
+  rewrite <- (firstn_skipn j l) at 3. rewrite map_app. cbn [app]. rewrite <- Permutation_rev.
+  rewrite (Permutation_app_comm (map ekid (skipn j l)) d0). rewrite <- app_assoc.
+  apply Permutation_app_head. apply Permutation_app_comm.
+Qed.
+
+Lemma map_drain_star j s out s' :
+  Inv R ES (s_rt s) -> map_drain j false s = Ok out s' ->
+  dks s' ++ kidsE (s_rt s') ++ kids3 out ≡ₚ dks s ++ kidsE (s_rt s).
+Proof.
+  intros HI E. pose proof (map_drain_ledger j s (Inv_lite _ _ _ HI)) as H. unfold wpp in H. rewrite E in H.
+  destruct H as (l & s1 & Ed & -> & _ & Hel & Hk & _). pose proof (drain_order_all s l s1 HI Ed) as Hp.
+  unfold kidsE. rewrite Hel, Hk, kids3_elem3. cbn [map]. rewrite <- Hp. apply drain_star_aux.
+Qed.
+Lemma map_into_iter_star j s out s' :
+  Inv R ES (s_rt s) -> map_into_iter j s = Ok out s' ->
+  kidsE (s_rt s') = [] /\ dks s' ++ kidsE (s_rt s') ++ kids3 out ≡ₚ dks s ++ kidsE (s_rt s).
+Proof.
+  intros HI E. pose proof (map_into_iter_ledger j s (Inv_lite _ _ _ HI)) as H. unfold wpp in H. rewrite E in H.
+  destruct H as (l & s1 & Ed & -> & _ & Hel & Hk & _). pose proof (drain_order_all s l s1 HI Ed) as Hp.
+  unfold kidsE. rewrite Hel, Hk, kids3_elem3. cbn [map]. split; [reflexivity|]. rewrite <- Hp. apply drain_star_aux.
+Qed.
+
 End Conserve.
